@@ -331,8 +331,10 @@ func (c *Controller) resolveMatch(ls *linkState, hashBytes []byte, ms link.Mount
 		}
 	})
 
+	// one value per stream: every matching solicitation shares the same
+	// SolicitMountedStream, whose accepted flag arbitrates between them.
+	sms := link_solicit.NewSolicitMountedStream(ms)
 	for _, ss := range matches {
-		sms := link_solicit.NewSolicitMountedStream(ms)
 		if _, ok := ss.handler.AddValue(sms); ok {
 			ls.le.WithField("hash", hashHex).Debug("emitted SolicitMountedStream value")
 		}
